@@ -4,6 +4,7 @@
 #  * _play_and_compare_recording_within_worker (dedicated process): rely/guarantee with ghost message tags -- token invariant T(cur)
 #    while awaiting, dispatch invariant D between recordings; every mp / os / time call havocs the ghost state under the phase invariant
 import ast
+import os
 import z3
 
 from pyvc.vals import Val, NONE, S, B, I as IV, K, LAT, TYP, sub, SeqV, Str, BASE, fresh, truthy, num, is_num, is_exc, St, Unsupported
@@ -14,7 +15,7 @@ from pyvc.run import Obl
 from pyvc import lib
 from pyvc.calls import Role
 
-REPO_ROOT = '/repo'
+REPO_ROOT = os.environ.get('PYVC_REPO', '/repo')
 EQ = 'playback.studio.equalizer:Equalizer.'
 E = z3.Empty(SeqV)
 _eng.OBJMETHODS |= {('Queue', 'put'), ('Queue', 'get'), ('Queue', 'close'), ('Event', 'clear'), ('Event', 'set'), ('Event', 'is_set'), ('Event', 'wait'), ('Process', 'is_alive'), ('Process', 'join'), ('Process', 'start'), ('Process', 'terminate'), ('Process', 'kill')}
@@ -131,7 +132,7 @@ class EqSpec(object):
 
 
 def mk(qual, dedicated=False, generator=False, params=()):
-    repo = Repo(REPO_ROOT); spec = EqSpec(dedicated); ex = lib.install(Exec(repo, spec)); ex.generator = generator
+    repo = Repo(); spec = EqSpec(dedicated); ex = lib.install(Exec(repo, spec)); ex.generator = generator
     m, cls, node, info = repo.find(qual)
     st = St(); selfv = st.sym_obj('self', 'Equalizer'); spec.selfv = selfv
     en = st.sym_obj('EqualityStatus', 'object'); spec.enum = en
